@@ -227,7 +227,16 @@ def _cases_of(sname, tier, seed):
             note = "lca-typing:" + G.OPNAME[e[2][0]]
             yield {"k": "eval", "lang": eval_lang, "src": T, "exprs": [full(e)], "model": mrec, "note": note}
             yield {"k": "graph", "lang": graph_lang(sname, L, [(T, e)]), "model": mrec, "note": note}
-    # (2) batches of expressions x (every <=2-asset model in every decomposition, random larger models);
+    # (2) inheritance shapes
+    if sname in FOLD_EXPRS:
+        fl = list(fold_languages(sname))
+        for (types, links, mode) in m12 + big[:150]:
+            if mode not in ("pairs", "rnd"): continue
+            if quick and sname == "S2" and mode == "pairs" and rnd.random() >= 0.25: continue
+            mrec = G.model_recipe(types, links)
+            for lrec in fl:
+                yield {"k": "graph", "lang": lrec, "model": mrec}
+    # (3) batches of expressions x (every <=2-asset model in every decomposition, random larger models);
     #     expressions with a transitive operator are kept in batches / languages of their own, so that a
     #     non-terminating closure cannot hide what the other operators do
     allx = small + deep
@@ -251,15 +260,6 @@ def _cases_of(sname, tier, seed):
             for gl in glangs:
                 if p >= 1.0 or rnd.random() < p:
                     yield {"k": "graph", "lang": gl, "model": mrec}
-    # (3) inheritance shapes
-    if sname in FOLD_EXPRS:
-        fl = list(fold_languages(sname))
-        for (types, links, mode) in m12 + big[:150]:
-            if mode not in ("pairs", "rnd"): continue
-            if quick and sname == "S2" and mode == "pairs" and rnd.random() >= 0.25: continue
-            mrec = G.model_recipe(types, links)
-            for lrec in fl:
-                yield {"k": "graph", "lang": lrec, "model": mrec}
 
 
 # -----------------------------------------------------------------------------------------------------
